@@ -138,7 +138,7 @@ EXPORT void tfhe_bootstrap_woKS(LweSample *result,
     const int32_t n = in_params->n;
 
     TorusPolynomial *testvect = new_TorusPolynomial(N);
-    int32_t *bara = new int32_t[N];
+    int32_t *bara = new int32_t[n];
 
     int32_t barb = modSwitchFromTorus32(x->b, Nx2);
     for (int32_t i = 0; i < n; i++) {
